@@ -71,7 +71,7 @@ def check_hash(pid, data, res):
                        [('R_mis', 'hash_mismatches cases'), ('R_vio', 'hash_violations cases')])
         for i in r['R_vio']:
             c = chunk[i][0]
-            res.violations.append(dict(signature='C14/hasher-law', what='built-in hasher: keys of two payloads contradict "equal up to the read limit => equal keys; SHA-256: different within it => different keys"',
+            res.violations.append(dict(signature='C14/hasher-law', what=('built-in hasher: two payloads that differ within the read limit got one key (SHA-256 must separate them)' if c['k1'] == c['k2'] and not c['e1'] else 'built-in hasher: keys of two payloads contradict "equal up to the read limit => equal keys; SHA-256: different within it => different keys"'),
                                        case={k: c[k] for k in ('kind', 'limit', 'shape', 'p1', 'p2', 'k1', 'k2', 'e1', 'e2')}))
         for i in r['R_mis']:
             c = chunk[i][0]
@@ -477,7 +477,7 @@ def run(ctx, seed_offset=0, scale=1):
         res.extra['race_detector'] = dict(cases=170, races_reported=races, note='testing, not proof')
         if races:
             res.violations.append(dict(signature='C14/data-race', what='race detector reports a data race in the deduplicator under concurrent use', case=dict(report=p.stdout[:3000])))
-    res.rule = ('hashers: generated payload pairs (same prefix/different tails, limit vs limit+k, differing at limit-1 / at limit, limit-1 vs limit, short, identical) x limits '
+    res.rule = ('hashers: generated payload pairs (same prefix/different tails, limit vs limit+k, differing at limit-1 / at limit, limit-1 vs limit, short, identical; adversarial pairs built from the hashers\' own outputs: the raw digest of the other payload\'s prefix at the read limit / of the whole payload / the key the hasher under test returned, as a payload) x limits '
                 '{MinInt64,-1,0,1,63..66,80,100,127..129,MaxInt64} x {Adler-32, SHA-256}, metadata hasher on present/absent/empty fields; non-trivial = the two payloads differ. '
                 'glue: scripted hasher/repository (errors at every position, duplicates, cancelled context, ten timeouts) through Middleware and PublisherDecorator; '
                 'concurrent: 1..32 goroutines, each 1..3 middleware calls / decorator batches (0..4 messages, same object twice) on 1..4 keys through ONE Deduplicator with the real map repository, '
